@@ -27,7 +27,7 @@ def obligations():
             o.append(Obl(f"C14.triplets.ew{int(ew)}.sc{int(sc)}", "xh", "harness.c14_py", "bond_triplets", ["mdtraj.geometry.hbond._get_bond_triplets"],
                          "5 atoms in 2 residues; elements, bonds, water flag, naming symbolic", "exactly the bonded N-H/O-H donors x N/O acceptors passing the filters, donor != acceptor, donor before hydrogen", 900,
                          pre=f"exclude_water == {ew} and sidechain_only == {sc}",
-                         quick_pre="e0 <= 1 and 1 <= e1 <= 2 and 2 <= e2 <= 3 and e3 == 3 and e4 <= 1 and b3 and b4 and not b5",
+                         quick_pre="(e0 == 0 or e0 == 2) and 1 <= e1 <= 2 and 2 <= e2 <= 3 and e3 == 3 and e4 <= 1 and b3 and b4 and not b5",
                          thorough_pre="e0 <= 2 and 1 <= e1 <= 2 and 2 <= e2 <= 3 and e3 == 3 and e4 <= 1 and not b5", timeout_thorough=3000))
     H = "harness.c14"
     bh = ["mdtraj.geometry.hbond.baker_hubbard", "mdtraj.geometry.hbond._compute_bounded_geometry"]
@@ -55,6 +55,8 @@ def obligations():
             "matrix[f][acceptor, donor] = energy exactly for the filled slots, nothing else (documented orientation)", 600),
         Obl("C14.ks.python_arguments", "xh", "harness.c15_py", "kabsch_sander_arguments", ["mdtraj.geometry.hbond.kabsch_sander", "mdtraj.geometry.hbond._prep_kabsch_sander_arrays"], "which backbone atom residues 1 and 3 lack, proline position",
             "per-residue atom indices found by name, proline flags", 300),
+        Obl("C14.kernel_choice", "xh", "harness.c05_py", "dispatch", ["mdtraj.geometry.distance.compute_distances_core (used by every hydrogen-bond criterion)"], "3 frames, each orthorhombic or skewed (symbolic)",
+            "distances feeding the criteria come from the diagonal-only kernel only if EVERY frame is orthorhombic", 300),
         Obl("C14.ks.driver3_proline", "py", K, "driver", ["geometry.cpp:kabsch_sander"], "3 residues, residue 1 proline", "proline donors are never recorded", 600, params={"n_res": 3, "proline": 1}),
         Obl("C14.ks.incomplete_residue", "py", K, "hydrogen_after_incomplete_residue", ["geometry.cpp:ks_assign_hydrogens"], "residue 0 without backbone atoms followed by two complete residues",
             "no coordinate is read through index -1", 300),
